@@ -543,6 +543,21 @@ def class_lookup_mode(repo):
     raise Unrecognised("class_factory: class lookup %r" % (found,))
 
 
+def class_reads_object(repo):
+    """does netref.class_factory read attributes of the object it found under the peer's dotted name (an object never lent)?
+    True: `hasattr(_class, '__class__')` / `_class_obj.__class__`; False: the object is accepted by a test on type(_class) only"""
+    tree = parse(repo, SRC_NETREF)
+    fn = find_func(tree, "class_factory")
+    tests = [u(n.test) for n in ast.walk(fn) if isinstance(n, ast.If) and "_class" in u(n.test) and "_class_name" not in u(n.test)
+             and "_builtin_class" not in u(n.test)]
+    owner = [u(s) for s in clean(find_func(find_class(tree, "NetrefClass"), "owner").body)]
+    if tests == ["_class is not None and hasattr(_class, '__class__')"] and owner == ["return self._class_obj.__class__"]:
+        return True
+    if tests == ["_class is not None and issubclass(type(_class), type)"] and owner == ["return type(self._class_obj)"]:
+        return False
+    raise Unrecognised("class_factory: acceptance test %r / NetrefClass.owner %r" % (tests, owner))
+
+
 # ---------------------------------------------------------------------- constant introspection names
 IMPL_NAMES = {"self", "cls", "consts", "netref", "brine", "sys", "inspect", "itertools", "pickle", "vinegar", "conn", "config", "methods", "attrs",
               "types", "slot", "accessor", "logger"}
@@ -627,7 +642,7 @@ def facts(repo):
     return {"handlers": translate_handlers(cls, consts), "dispatch": dispatch_table(cls, consts), "msg_ladder": msg_ladder(cls, consts),
             "unbox_ladder": unbox_ladder(cls, consts), "box_ladder": box_ladder(cls, consts), "request_steps": request_steps(cls),
             "getitem_plain": getitem_plain(repo), "serve_all_closes": serve_all_closes(cls), "const_names": const_names(repo, cls),
-            "class_lookup_mode": class_lookup_mode(repo), "variants": variant_facts(translate_handlers(cls, consts))}
+            "class_lookup_mode": class_lookup_mode(repo), "class_reads_object": class_reads_object(repo), "variants": variant_facts(translate_handlers(cls, consts))}
 
 
 def translate(repo):
@@ -664,6 +679,7 @@ def translate(repo):
     guarded("getitem_plain", lambda: typed("getitem_plain", "bool", coq_bool(getitem_plain(repo))))
     guarded("serve_all_closes", lambda: typed("serve_all_closes", "bool", coq_bool(serve_all_closes(cls))))
     guarded("class_lookup_mode", lambda: typed("class_lookup_mode", "Vinegar.lookup_mode", class_lookup_mode(repo)))
+    guarded("class_reads_object", lambda: typed("class_reads_object", "bool", coq_bool(class_reads_object(repo))))
     guarded("const_names", lambda: typed("const_names", "list string", coq_list(coq_string(s) for s in const_names(repo, cls))))
 
     def shapes():
